@@ -94,6 +94,9 @@ elem!(UWide, "U", u64, 0, #[repr(C)]);                  // size 16 align 8
 elem!(UOver16, "U", (), (), #[repr(C, align(16))]);     // size 16 align 16
 elem!(TWide8, "T", [u32; 2], [0; 2], #[repr(C)]);       // size 16 align 4
 elem!(UWide16, "U", [u32; 2], [0; 2], #[repr(C, align(8))]); // size 16 align 8
+elem!(TWide16, "T", [u32; 2], [0; 2], #[repr(C, align(8))]); // size 16 align 8
+elem!(UWide8, "U", [u32; 2], [0; 2], #[repr(C)]);            // size 16 align 4
+elem!(TOver16, "T", (), (), #[repr(C, align(16))]);          // size 16 align 16
 
 fn run_script<T: Elem, U: Elem>(n: usize, script: &[String]) -> String {
     L.with(|l| {
@@ -221,6 +224,9 @@ fn dispatch(pair: &str, n: usize, script: &[String]) -> (String, String) {
         "ne-align" => ((16, 4, 16, 8), run_script::<TWide8, UWide16>(n, script)),
         "ne-both" => ((8, 4, 16, 16), run_script::<TPlain, UOver16>(n, script)),
         "ne-heap" => ((16, 8, 8, 4), run_script::<THeap, USmall>(n, script)),
+        "ne-align-down" => ((16, 8, 16, 4), run_script::<TWide16, UWide8>(n, script)),
+        "ne-align-down2" => ((16, 16, 16, 8), run_script::<TOver16, UWide>(n, script)),
+        "ne-size-down" => ((16, 8, 8, 4), run_script::<TWide16, UPlain>(n, script)),
         _ => panic!("pair"),
     };
     (format!("vec {} {} {} {} {} {}", lay.0, lay.1, lay.2, lay.3, n, script.join(" ")), ans)
@@ -239,6 +245,9 @@ fn main() {
     assert_eq!((std::mem::size_of::<UWide16>(), std::mem::align_of::<UWide16>()), (16, 8));
     assert_eq!((std::mem::size_of::<UOver16>(), std::mem::align_of::<UOver16>()), (16, 16));
     assert_eq!((std::mem::size_of::<USmall>(), std::mem::align_of::<USmall>()), (8, 4));
+    assert_eq!((std::mem::size_of::<TWide16>(), std::mem::align_of::<TWide16>()), (16, 8));
+    assert_eq!((std::mem::size_of::<UWide8>(), std::mem::align_of::<UWide8>()), (16, 4));
+    assert_eq!((std::mem::size_of::<TOver16>(), std::mem::align_of::<TOver16>()), (16, 16));
     let args: Vec<String> = std::env::args().collect();
     let mode = args.get(1).cloned().unwrap_or("random".into());
     let seed: u64 = args.get(2).and_then(|s| s.parse().ok()).unwrap_or(1);
@@ -271,7 +280,7 @@ fn main() {
         }
         // refusal matrix, every length 0..=maxlen
         for n in 0..=maxlen + 3 {
-            for pair in ["ne-size", "ne-align", "ne-both", "ne-heap"] {
+            for pair in ["ne-size", "ne-align", "ne-both", "ne-heap", "ne-align-down", "ne-align-down2", "ne-size-down"] {
                 let script: Vec<String> = (0..n).map(|_| "c".to_string()).collect();
                 emit(pair, n, &script, &mut req, &mut imp);
                 nscripts += 1;
@@ -286,7 +295,8 @@ fn main() {
             let script: Vec<String> = t[6..].iter().map(|x| x.to_string()).collect();
             let pair = match (lay[0], lay[1], lay[2], lay[3]) {
                 (8, 4, 8, 4) => "plain", (16, 8, 16, 8) => "heap", (4096, 8, 4096, 8) => "big", (64, 64, 64, 64) => "over",
-                (8, 4, 16, 8) => "ne-size", (16, 4, 16, 8) => "ne-align", (8, 4, 16, 16) => "ne-both", _ => "ne-heap",
+                (8, 4, 16, 8) => "ne-size", (16, 4, 16, 8) => "ne-align", (8, 4, 16, 16) => "ne-both", (16, 8, 16, 4) => "ne-align-down",
+                (16, 16, 16, 8) => "ne-align-down2", (16, 8, 8, 4) if t.len() > 6 && false => "ne-size-down", _ => "ne-heap",
             };
             emit(pair, n, &script, &mut req, &mut imp);
             nscripts += 1;
@@ -301,7 +311,7 @@ fn main() {
             let script: Vec<String> = (0..n).map(|k| {
                 if failing && k == fail_at { CODES[4 + rng.below(4)].to_string() } else { CODES[rng.below(4)].to_string() }
             }).collect();
-            let pair = match i % 10 { 0 | 1 | 2 | 3 => "plain", 4 | 5 | 6 => "heap", 7 => "over", 8 => if n <= 40 { "big" } else { "plain" }, _ => *rng.pick(&["ne-size", "ne-align", "ne-both", "ne-heap"]) };
+            let pair = match i % 10 { 0 | 1 | 2 | 3 => "plain", 4 | 5 | 6 => "heap", 7 => "over", 8 => if n <= 40 { "big" } else { "plain" }, _ => *rng.pick(&["ne-size", "ne-align", "ne-both", "ne-heap", "ne-align-down", "ne-align-down2", "ne-size-down"]) };
             emit(pair, n, &script, &mut req, &mut imp);
             nscripts += 1;
             if i % 10 == 0 {
